@@ -20,8 +20,8 @@ RULE = (
 )
 ASSUMPTIONS = ["histories are generated as data (operation lists interpreted by check_case); no operation has a state-dependent precondition except 'a model was fitted', which the interpreter handles by fitting one"]
 BUDGET = {
-    "quick": {"examples": 1600, "shards": 8, "min_nontrivial": 300},
-    "thorough": {"examples": 32000, "shards": 16, "min_nontrivial": 5000, "max_wall": 3000},
+    "quick": {"examples": 4800, "shards": 16, "min_nontrivial": 300},
+    "thorough": {"examples": 128000, "shards": 16, "min_nontrivial": 5000, "max_wall": 3000},
 }
 R_METRICS = sorted(n for n in M.NAMES if M.c08_domain(n) == "R")
 FIT_METRICS = sorted(n for n in M.NAMES if M.symmetric(n) and M.dissimilarity(n))
@@ -46,6 +46,9 @@ def _case(draw):
     nval = draw(st.integers(K, K + 2))
     Xv = [draw(_vec(dim, False)) for _ in range(nval)]
     Yv = draw(gen.labels(nval, K, K))
+    off = draw(st.sampled_from([0, 0, 1, 3]))  # class identifiers need not start at 0 (1-based label files are common)
+    Y = [y + off for y in Y]
+    Yv = [y + off for y in Yv]
     Q = [draw(_vec(dim, False)) for _ in range(draw(st.integers(1, 4)))]
     if draw(st.booleans()):
         Q[0] = list(X[0])
@@ -53,12 +56,17 @@ def _case(draw):
     ev = st.tuples(st.just("eval"), st.sampled_from(names), st.integers(0, nv - 1), st.integers(0, nv - 1)).map(list)
     shifted = [n_ for n_ in names if M.shifted(n_)]
     ev2 = st.tuples(st.just("eval"), st.sampled_from(shifted or names), st.integers(0, nv - 1), st.integers(0, nv - 1)).map(list)
-    fit = st.tuples(st.just("fit"), st.sampled_from(["sup", "semi", "knn", "unsup"]), st.sampled_from(FIT_METRICS)).map(list)
+    # few (model, metric) combinations per history, so that the same combination is fitted several times
+    fm = draw(st.lists(st.sampled_from(FIT_METRICS), min_size=1, max_size=2))
+    fk = draw(st.lists(st.sampled_from(["sup", "semi", "knn", "unsup", "unsup"]), min_size=1, max_size=2))
+    fit = st.tuples(st.just("fit"), st.sampled_from(fk), st.sampled_from(fm)).map(list)
     other = st.one_of(st.just(["predict"]), st.just(["get_distances"]), st.tuples(st.just("pre_compute"), st.sampled_from(FIT_METRICS), st.sampled_from(["txt", "csv"])).map(list),
                       st.tuples(st.just("fit_twice"), st.sampled_from(["sup", "semi", "knn", "unsup"]), st.sampled_from(FIT_METRICS)).map(list))
     # the CALLER re-uses a buffer: vector i is overwritten in place with new values (a legitimate caller action)
     rewrite = st.tuples(st.just("rewrite"), st.integers(0, nv - 1), _vec(dim, signed)).map(list)
-    ops = draw(st.lists(st.one_of(ev, ev, ev2, ev2, fit, other, rewrite), min_size=2, max_size=14))
+    # a fit of the same kind of model on OTHER (more spread-out) data in between: later fits on the pooled data must not depend on it
+    fit_other = st.tuples(st.just("fit_other"), st.sampled_from(fk), st.sampled_from(fm), st.sampled_from([3.0, 10.0, 0.25])).map(list)
+    ops = draw(st.lists(st.one_of(ev, ev, ev2, ev2, fit, fit, other, rewrite, fit_other), min_size=2, max_size=14))
     if draw(st.booleans()) and ops:
         # replay an earlier evaluation at the end: same key after whatever happened in between
         evs = [o for o in ops if o[0] == "eval"]
@@ -120,6 +128,8 @@ def check_case(case):
                     lambda: "array %s modified by %s: now %r, originally %r" % (k, after, a.tolist(), np.frombuffer(b, dtype=dt).reshape(sh).tolist()))
 
     memo = {}
+    fit_memo = {}
+    other_fits = 0
     model = None
     evals_on_zero = {}
     touched_between = set()
@@ -159,6 +169,25 @@ def check_case(case):
                             nontriv = True
             elif op[0] == "fit":
                 model = _fit(op[1], op[2], A)
+                touched_between |= seen_keys
+                st_ = models.node_state(model)
+                st_.pop("relevant")
+                pr_ = _predict(model, A)
+                st_.pop("relevant", None)
+                key = ("fit", op[1], op[2])
+                if key in fit_memo:
+                    st0, pr0, o0 = fit_memo[key]
+                    for f in st0:
+                        require(repr(st0[f]) == repr(st_[f]), "fit_independent_of_history", lambda: "%s/%s: field %s of a fresh fit at operation %d differs from the fresh fit at operation %d on equal data: %r vs %r (history %r)" % (op[1], op[2], f, oi, o0, st_[f], st0[f], case["ops"][: oi + 1]))
+                    require(pr0 == pr_, "fit_independent_of_history", "predictions differ: %r vs %r" % (pr_, pr0))
+                    if other_fits:
+                        nontriv = True
+                else:
+                    fit_memo[key] = (st_, pr_, oi)
+            elif op[0] == "fit_other":
+                B = dict(A, X=A["X"] * op[3] + 1.0, Xv=A["Xv"] * op[3] + 1.0, Q=A["Q"] * op[3])
+                _fit(op[1], op[2], B)
+                other_fits += 1
                 touched_between |= seen_keys
             elif op[0] == "predict":
                 if model is None:
